@@ -395,3 +395,75 @@ package cache
 //@   nosafety all pre
 //@   assert at call (*middleware/cache.FailureCache).record#1: arg1 == lastret("middleware/cache.failureZoneHash") && arg2.kind == FailureKindZone && arg2.zone == lastret("middleware/cache.normalizeFailureZoneKey") && arg2.provenance == provenance
 //@   assert at call middleware/cache.failureZoneHash#1: arg0 == lastret("middleware/cache.normalizeFailureZoneKey")
+//@
+//@ # ---- C04 / C01 / C06: serving a cached entry from its stored bytes (both wire serve paths, abstracting tier): nothing
+//@ # is served once the remaining lifetime is not positive; every record's TTL is rewritten to the whole seconds of the
+//@ # SAME remaining lifetime (no floor); the reply header is stamped with the request's own ID/opcode/RD/CD; AD is reported
+//@ # (and left in the bytes) only if the stored header had it and the client did not set CD
+//@ func (*CacheEntry).serveWireInto
+//@   abstract
+//@   nosafety all pre
+//@   assert at call (*middleware/cache.CacheEntry).wireBodyFor#1: lastret("(*middleware/cache.CacheEntry).remaining") > 0 && arg1 == do
+//@   assert at call internal/wire.SetTTL#1: arg0 == body && arg2 == ttl && (lastret("(*middleware/cache.CacheEntry).remaining") < 2251799813685248 ==> int(ttl) == lastret("(*middleware/cache.CacheEntry).remaining") / 1000000000)
+//@   assert at call internal/wire.ApplyReply#1: arg0 == body && arg1 == req.Id && arg2 == req.Opcode && arg3 == req.RecursionDesired && arg4 == req.CheckingDisabled
+//@   assert at call (*middleware/cache.CacheEntry).wireInfoFor#1: arg3 ==> lastret("(internal/wire.Header).AD") && !req.CheckingDisabled
+//@   assert at call (*middleware/cache.CacheEntry).wireInfoFor#1: lastret("(internal/wire.Header).AD") && req.CheckingDisabled ==> calls("internal/wire.ClearAD") == 1
+//@   assert at return#1: !result2
+//@
+//@ func (*CacheEntry).serveWireIntoRequest
+//@   abstract
+//@   nosafety all pre
+//@   assert at call (*middleware/cache.CacheEntry).wireBodyFor#1: lastret("(*middleware/cache.CacheEntry).remaining") > 0 && arg1 == do
+//@   assert at call internal/wire.SetTTL#1: arg0 == body && arg2 == ttl && (lastret("(*middleware/cache.CacheEntry).remaining") < 2251799813685248 ==> int(ttl) == lastret("(*middleware/cache.CacheEntry).remaining") / 1000000000)
+//@   assert at call internal/wire.ApplyReply#1: arg0 == body && arg1 == lastret("(*middleware.Request).ID") && arg2 == lastret("(*middleware.Request).Opcode") && arg3 == lastret("(*middleware.Request).RD") && arg4 == lastret("(*middleware.Request).CD#1")
+//@   assert at call (*middleware/cache.CacheEntry).wireInfoFor#1: arg3 ==> lastret("(internal/wire.Header).AD") && !lastret("(*middleware.Request).CD#2")
+//@   assert at call (*middleware/cache.CacheEntry).wireInfoFor#1: lastret("(internal/wire.Header).AD") && lastret("(*middleware.Request).CD#2") ==> calls("internal/wire.ClearAD") == 1
+//@   assert at copy#2: len(src) == lastret("internal/wire.ParseQuestion").NameLen && src == lastret("(*middleware.Request).WireName")
+//@   assert at return#1: !result2
+//@
+//@ # ---- C04: lineage folding. Every answer handed out from the cache binds the request tree to the earlier of the
+//@ # entry's own expiry (stored + ttl) and its delegation cut; a sub-query's tree passes its cut to the parent once
+//@ func boundRequestToEntryLifetime
+//@   requires entry != nil ==> entryWF(entry) && entry.ttl <= 2000000000000000 && inst(entry.stored) < 2305843009213693952
+//@   assert at call (*middleware.ResponseMeta).BoundCutFor#1: arg0 == lastret("middleware.ResponseMetaFrom") && arg0 != nil
+//@   assert at call (*middleware.ResponseMeta).BoundCutFor#1: !tzero(entry.cutUntil) && inst(entry.cutUntil) <= inst(entry.stored) + entry.ttl ==> arg1 == entry.cutUntil && arg2 == entry.cutKey
+//@   assert at call (*middleware.ResponseMeta).BoundCutFor#1: tzero(entry.cutUntil) || inst(entry.cutUntil) > inst(entry.stored) + entry.ttl ==> inst(arg1) == inst(entry.stored) + entry.ttl && arg2 == 0
+//@
+//@ func boundRequestTo
+//@   assert at call (*middleware.ResponseMeta).BoundCutFor#1: arg1 == expires && arg2 == 0
+//@
+//@ func (*subQueryLineage).inherit
+//@   abstract
+//@   nosafety all pre
+//@   assert at call (*middleware.ResponseMeta).BoundCutFor#1: arg0 == l.parent && arg1 == lastret("(*middleware.ResponseMeta).Cut") && arg2 == lastret("(*middleware.ResponseMeta).Cut", 1) && !old(l.inherited)
+//@   assert at call (*middleware.ResponseMeta).Cut#1: arg0 == l.child && l.child != nil
+//@
+//@ # answers served to the resolver from the shared store (DS, DNSKEY, ...) bind the request tree to their lifetime;
+//@ # shared denial state (cuts, aggressive proofs) is consulted only for trees without CD and without ECS
+//@ func (*Store).GetWithContext
+//@   abstract
+//@   nosafety all pre
+//@   assert at return#2: result1 && result0 != nil && calls("middleware/cache.boundRequestToEntryLifetime") == 1
+//@   assert at call middleware/cache.boundRequestToEntryLifetime#1: arg1 == lastret("(*middleware/cache.Store).Lookup") && lastret("(*middleware/cache.Store).Lookup", 1) && lastret("(*middleware/cache.CacheEntry).ToMsg") != nil
+//@   assert at call middleware/cache.hasEDNSClientSubnet#1: !req.CheckingDisabled && arg0 == req
+//@   assert at call (*middleware/cache.Store).LookupNXDomainCut#1: !lastret("middleware/cache.hasEDNSClientSubnet") && !lastret("middleware.HasClientECS") && !lastret("middleware/cache.sharedDenialBypass")
+//@   assert at call middleware/cache.boundRequestTo#1: arg1 == lastret("(*middleware/cache.Store).LookupNXDomainCut").expires
+//@   assert at call middleware/cache.boundRequestTo#2: arg1 == lastret("(*middleware/cache.Store).lookupDenialProofWithExpiry", 3)
+//@
+//@ # ---- C04 / C02: an aggressive-denial proof lives no longer than the configured maximum (at most 3 h), the delegation
+//@ # cut, every record's TTL, SOA MINIMUM, every RRSIG's original TTL and expiration — and there is NO floor
+//@ func denialProofExpiry$1
+//@   modifies ttl
+//@   ensures ttl == ite(candidate < old(ttl), candidate, old(ttl))
+//@
+//@ func denialProofExpiry
+//@   requires clock(now) && (tzero(cutUntil) || real(cutUntil)) && proofWF(records)
+//@   nosafety ovf
+//@   loop 1 invariant ttl <= 10800000000000 && (entry_maxTTL > 0 && entry_maxTTL <= 10800000000000 ==> ttl <= entry_maxTTL) && (!tzero(cutUntil) ==> ttl <= inst(cutUntil) - inst(now)) && proofWF(records) && clock(now)
+//@   loop 1 invariant forall j int :: {records[j]} 0 <= j && j < rangeidx ==> ttl <= time.Duration(hdrOf(records[j]).Ttl) * 1000000000
+//@   loop 1 invariant forall j int :: {records[j]} 0 <= j && j < rangeidx && dyntype(records[j], *dns.RRSIG) ==> ttl <= time.Duration(as(records[j], *dns.RRSIG).OrigTtl) * 1000000000 && ttl <= sigUntil(as(records[j], *dns.RRSIG), now)
+//@   loop 1 invariant forall j int :: {records[j]} 0 <= j && j < rangeidx && dyntype(records[j], *dns.SOA) ==> ttl <= time.Duration(as(records[j], *dns.SOA).Minttl) * 1000000000
+//@   ensures result1 ==> inst(result0) > inst(now) && inst(result0) <= inst(now) + 10800000000000 && (maxTTL > 0 && maxTTL <= 10800000000000 ==> inst(result0) <= inst(now) + maxTTL) && (!tzero(cutUntil) ==> inst(result0) <= inst(cutUntil))
+//@   ensures result1 ==> forall j int :: {records[j]} 0 <= j && j < len(records) ==> inst(result0) <= inst(now) + time.Duration(hdrOf(records[j]).Ttl) * 1000000000
+//@   ensures result1 ==> forall j int :: {records[j]} 0 <= j && j < len(records) && dyntype(records[j], *dns.RRSIG) ==> inst(result0) <= inst(now) + time.Duration(as(records[j], *dns.RRSIG).OrigTtl) * 1000000000 && inst(result0) <= int64(as(records[j], *dns.RRSIG).Expiration) * 1000000000
+//@   ensures result1 ==> forall j int :: {records[j]} 0 <= j && j < len(records) && dyntype(records[j], *dns.SOA) ==> inst(result0) <= inst(now) + time.Duration(as(records[j], *dns.SOA).Minttl) * 1000000000
